@@ -644,3 +644,395 @@ func (c *Check) oneOncePerField() {
 		c.bad("C20-R1", "once:same-once", fields[names[1]], "computeBase runs under different sync.Once objects ("+strings.Join(names, ", ")+"): the base of one file can be computed twice, at the same time, and base/baseErr are rewritten after other goroutines have read them")
 	}
 }
+
+// derivedFrom: v is root or is computed from it by slicing, field/element access, loads,
+// phis and type changes (the bytes or elements reachable through root).
+func derivedFrom(v, root ssa.Value, seen map[ssa.Value]bool, d int) bool {
+	if v == root {
+		return true
+	}
+	if seen[v] || d > 10 {
+		return false
+	}
+	seen[v] = true
+	switch x := v.(type) {
+	case *ssa.Slice:
+		return derivedFrom(x.X, root, seen, d+1)
+	case *ssa.UnOp:
+		if x.Op == token.MUL {
+			if al, ok := x.X.(*ssa.Alloc); ok {
+				// a local (or a result spilled because of a defer): what was stored in it
+				whole, _ := allocStores(al)
+				for _, w := range whole {
+					if derivedFrom(w, root, seen, d+1) {
+						return true
+					}
+				}
+				return false
+			}
+			return derivedFrom(x.X, root, seen, d+1)
+		}
+	case *ssa.FieldAddr:
+		return derivedFrom(x.X, root, seen, d+1)
+	case *ssa.IndexAddr:
+		return derivedFrom(x.X, root, seen, d+1)
+	case *ssa.Field:
+		return derivedFrom(x.X, root, seen, d+1)
+	case *ssa.ChangeType:
+		return derivedFrom(x.X, root, seen, d+1)
+	case *ssa.Convert:
+		return derivedFrom(x.X, root, seen, d+1)
+	case *ssa.TypeAssert:
+		return derivedFrom(x.X, root, seen, d+1)
+	case *ssa.MakeInterface:
+		return derivedFrom(x.X, root, seen, d+1)
+	case *ssa.Phi:
+		for _, e := range x.Edges {
+			if derivedFrom(e, root, seen, d+1) {
+				return true
+			}
+		}
+	}
+	return false
+}
+
+// noRecycledResult (C20-R1, pool:*): bytes handed to a caller are the caller's.  No module
+// function returns memory reachable through an object that it also gives back to a sync.Pool
+// (directly or deferred): the next Get hands the same array to another goroutine, which
+// overwrites it while the first caller is still compressing or parsing it (torn Write/Copy).
+func (c *Check) noRecycledResult() {
+	p := c.P
+	n := 0
+	for f := range p.AllFns {
+		if !fnInModule(f) || f.Blocks == nil || strings.Contains(fnPkgPath(f), "third_party") {
+			continue
+		}
+		var puts []ssa.Value
+		var putPos token.Pos
+		for _, b := range f.Blocks {
+			for _, ins := range b.Instrs {
+				ci, ok := ins.(ssa.CallInstruction)
+				if !ok {
+					continue
+				}
+				cal := ci.Common().StaticCallee()
+				if cal == nil || cal.String() != "(*sync.Pool).Put" || len(ci.Common().Args) != 2 {
+					continue
+				}
+				v := ci.Common().Args[1]
+				if mi, ok := v.(*ssa.MakeInterface); ok {
+					v = mi.X
+				}
+				puts = append(puts, v)
+				putPos = ins.Pos()
+			}
+		}
+		if len(puts) == 0 {
+			continue
+		}
+		n++
+		bad := false
+		for _, b := range f.Blocks {
+			ret, ok := b.Instrs[len(b.Instrs)-1].(*ssa.Return)
+			if !ok {
+				continue
+			}
+			for _, r := range ret.Results {
+				for _, pv := range puts {
+					if derivedFrom(r, pv, map[ssa.Value]bool{}, 0) && r != pv {
+						bad = true
+					}
+				}
+			}
+		}
+		key := "pool:" + fnName(f)
+		if bad {
+			c.bad("C20-R1", key, p.relFile(putPos), fnName(f)+" returns memory of an object that it also puts back into a sync.Pool: the next Get gives the same array to another goroutine, which overwrites it while this caller is still using the result (a concurrent Write or Copy emits another profile's bytes)")
+		} else {
+			c.ok("C20-R1", key, p.relFile(putPos), fnName(f)+" recycles an object through a sync.Pool and returns nothing that lives in it", "no return value is derived from the pooled object")
+		}
+	}
+	if n == 0 {
+		c.ok("C20-R1", "pool:none", "", "no module function gives an object back to a sync.Pool", "all module functions scanned for (*sync.Pool).Put")
+	}
+}
+
+// guardedValueStaysUnderLock (C20-R1, escape:*): a slice or map read from a mutex-guarded
+// package variable is only used while the mutex is held, unless the variable was given a
+// value that shares nothing with it (nil, a fresh make) in the same critical section.
+// `pending := tempFiles; tempFiles = tempFiles[:0]; unlock; range pending` leaves the registry
+// and the local sharing one array: a registration made meanwhile overwrites entries that
+// the loop has not reached, and the loop deletes a file another command still uses.
+func (c *Check) guardedValueStaysUnderLock() {
+	p := c.P
+	type gspec struct {
+		g  *ssa.Global
+		mu string
+	}
+	var specs []gspec
+	if pk := p.SSAPkg("internal/driver"); pk != nil {
+		if gv := pk.Var("tempFiles"); gv != nil {
+			specs = append(specs, gspec{gv, "global:tempFilesMu"})
+		}
+	}
+	for _, s := range specs {
+		byFn := map[*ssa.Function][]*ssa.UnOp{}
+		for _, ins := range globalRefs(p, s.g) {
+			if ld, ok := ins.(*ssa.UnOp); ok && ld.Op == token.MUL && ld.X == ssa.Value(s.g) {
+				byFn[ld.Parent()] = append(byFn[ld.Parent()], ld)
+			}
+		}
+		var fns []*ssa.Function
+		for f := range byFn {
+			fns = append(fns, f)
+		}
+		sortFns(fns)
+		for _, f := range fns {
+			if f.Name() == "init" {
+				continue
+			}
+			escapes := ""
+			var escLoad *ssa.UnOp
+			for _, ld := range byFn[f] {
+				// every value derived from the load, and the instructions that use one
+				work := []ssa.Value{ld}
+				seen := map[ssa.Value]bool{ld: true}
+				for len(work) > 0 {
+					v := work[0]
+					work = work[1:]
+					refs := v.Referrers()
+					if refs == nil {
+						continue
+					}
+					for _, r := range *refs {
+						if _, dbg := r.(*ssa.DebugRef); dbg {
+							continue
+						}
+						if st, ok := r.(*ssa.Store); ok && st.Addr == ssa.Value(s.g) {
+							continue
+						}
+						if !heldAt(f, r)[s.mu] && escapes == "" {
+							escapes = p.relFile(r.Pos())
+							escLoad = ld
+						}
+						switch x := r.(type) {
+						case *ssa.Slice, *ssa.Phi, *ssa.ChangeType:
+							if xv := x.(ssa.Value); !seen[xv] {
+								seen[xv] = true
+								work = append(work, xv)
+							}
+						}
+					}
+				}
+			}
+			key := "escape:" + s.g.Name() + "@" + fnName(f)
+			if escapes == "" {
+				c.ok("C20-R1", key, p.relFile(f.Pos()), "what "+fnName(f)+" reads from "+s.g.Name()+" is only used with the mutex held", "every use of the loaded value is inside the critical section")
+				continue
+			}
+			// handed over: the variable is re-assigned, in the same critical section, a value
+			// that shares no memory with the one taken out
+			handed := false
+			for _, ins := range globalRefs(p, s.g) {
+				st, ok := ins.(*ssa.Store)
+				if !ok || st.Parent() != f || st.Addr != ssa.Value(s.g) || !sameLockSection(f, escLoad, st) {
+					continue
+				}
+				shares := false
+				for _, ld := range byFn[f] {
+					if derivedFrom(st.Val, ld, map[ssa.Value]bool{}, 0) {
+						shares = true
+					}
+				}
+				if !shares {
+					handed = true
+				}
+			}
+			if handed {
+				c.ok("C20-R1", key, escapes, fnName(f)+" takes the contents of "+s.g.Name()+" out of the critical section after replacing them", "the variable is assigned a value that shares no memory with the one read, before the mutex is released")
+			} else {
+				c.bad("C20-R1", key, escapes, fnName(f)+" uses the slice it read from "+s.g.Name()+" after releasing the mutex while the variable still refers to the same array: a concurrent registration overwrites entries this function has not processed yet (a live temporary file is deleted and its name reissued)")
+			}
+		}
+	}
+}
+
+// readAfterSlotCleared (C16-R12): in the fetch code a slot is read, then released
+// (*s = profileSource{}); nothing is read through the pointer after that on the same path.
+// An error line built from s.addr after the slot was cleared names no source.
+func (c *Check) readAfterSlotCleared() {
+	p := c.P
+	n := 0
+	forAllPkgFuncs(p, "internal/driver", func(f0 *ssa.Function) {
+		if !strings.HasSuffix(p.Fset.Position(f0.Pos()).Filename, "/fetch.go") {
+			return
+		}
+		forEachFuncAndAnon(f0, func(f *ssa.Function) {
+			for _, b := range f.Blocks {
+				for _, ins := range b.Instrs {
+					st, ok := ins.(*ssa.Store)
+					if !ok || !isZeroStructValue(st.Val) {
+						continue
+					}
+					if _, isAlloc := st.Addr.(*ssa.Alloc); isAlloc {
+						continue
+					}
+					n++
+					key := fmt.Sprintf("cleared-slot:%s#%d", fnName(f), n)
+					late := ""
+					if refs := st.Addr.Referrers(); refs != nil {
+						for _, r := range *refs {
+							fa, ok := r.(*ssa.FieldAddr)
+							if !ok {
+								continue
+							}
+							for _, r2 := range *fa.Referrers() {
+								if ld, ok := r2.(*ssa.UnOp); ok && ld.Op == token.MUL && instrDominates(st, ld) {
+									_, F := fieldOf(fa.X.Type(), fa.Field)
+									late = F + " at " + p.relFile(ld.Pos())
+								}
+							}
+						}
+					}
+					if late == "" {
+						c.ok("C16-R12", key, p.relFile(st.Pos()), "nothing is read from a result slot after it is released", "no load through the pointer is dominated by the clearing store")
+					} else {
+						c.bad("C16-R12", key, p.relFile(st.Pos()), fnName(f)+" releases the slot and then reads field "+late+" through the same pointer: the value is always the zero value (an error line without the address of the source that failed)")
+					}
+				}
+			}
+		})
+	})
+	if n == 0 {
+		c.ok("C16-R12", "cleared-slot:none", "", "the fetch code releases no slot by storing a zero struct", "nothing to check")
+	}
+}
+
+func isZeroStructValue(v ssa.Value) bool {
+	if _, ok := v.Type().Underlying().(*types.Struct); !ok {
+		return false
+	}
+	switch x := v.(type) {
+	case *ssa.Const:
+		return x.Value == nil
+	case *ssa.UnOp:
+		if al, ok := x.X.(*ssa.Alloc); ok && x.Op == token.MUL {
+			whole, parts := allocStores(al)
+			return len(whole) == 0 && len(parts) == 0
+		}
+	}
+	return false
+}
+
+// formatIsLiteral (C18-R4): text taken from the profile is an operand of a formatting call,
+// never part of its format.  In the packages that emit DOT, callgrind and the text reports, no
+// fmt.*printf format is a concatenation with a non-constant piece: fmt reads every '%' of such
+// a piece as a verb, so a binary called "load100%" yields `digraph "load100%!"(MISSING) {`, and
+// a '%' in front of an escaped quote eats the backslash that escapes it.
+func (c *Check) formatIsLiteral() {
+	p := c.P
+	n, nbad := 0, 0
+	for _, rel := range []string{"internal/graph", "internal/report", "internal/driver"} {
+		forAllPkgFuncs(p, rel, func(f0 *ssa.Function) {
+			forEachFuncAndAnon(f0, func(f *ssa.Function) {
+				for _, b := range f.Blocks {
+					for _, ins := range b.Instrs {
+						call, ok := ins.(*ssa.Call)
+						if !ok {
+							continue
+						}
+						cal := call.Call.StaticCallee()
+						if cal == nil || fnPkgPath(cal) != "fmt" || !strings.HasSuffix(cal.Name(), "f") {
+							continue
+						}
+						fi := 0
+						if strings.HasPrefix(cal.Name(), "F") {
+							fi = 1
+						}
+						if fi >= len(call.Call.Args) {
+							continue
+						}
+						n++
+						var leaf func(v ssa.Value, d int) ssa.Value
+						leaf = func(v ssa.Value, d int) ssa.Value {
+							if _, ok := v.(*ssa.Const); ok || d > 12 {
+								return nil
+							}
+							if add, ok := v.(*ssa.BinOp); ok && add.Op == token.ADD {
+								if l := leaf(add.X, d+1); l != nil {
+									return l
+								}
+								return leaf(add.Y, d+1)
+							}
+							return v
+						}
+						fm := call.Call.Args[fi]
+						add, isCat := fm.(*ssa.BinOp)
+						if !isCat || add.Op != token.ADD {
+							continue
+						}
+						if l := leaf(fm, 0); l != nil {
+							nbad++
+							c.bad("C18-R4", fmt.Sprintf("format:%s#%d", fnName(f), nbad), p.relFile(call.Pos()), fnName(f)+" builds the format of fmt."+cal.Name()+" by concatenating "+describeValue(l)+" into it: every '%' in that text is read as a verb, so a name containing '%' produces %!x(MISSING) noise that breaks the quoting of the output (and swallows the backslash of an escaped quote)")
+						}
+					}
+				}
+			})
+		})
+	}
+	c.ok("C18-R4", "format:scan", "", "no formatting call of the emitters has data spliced into its format", fmt.Sprintf("%d fmt.*f calls in packages graph, report and driver: every format that is a concatenation has only constant pieces", n))
+}
+
+// absoluteFormIsCurrent (C18-R2, callgrind-abs): callgrindAddress answers with the current
+// address, either relative to the previous one or in absolute form.  Every value it formats
+// with a hexadecimal verb is its uint64 parameter: formatting the previous address instead
+// attributes the cost line to the wrong instruction.
+func (c *Check) absoluteFormIsCurrent() {
+	p := c.P
+	f := p.Func("internal/report", "callgrindAddress")
+	if f == nil {
+		return // the anchor is reported by the other callgrind rules
+	}
+	var cur *ssa.Parameter
+	for _, par := range f.Params {
+		if bt, ok := par.Type().Underlying().(*types.Basic); ok && bt.Kind() == types.Uint64 {
+			cur = par
+		}
+	}
+	if cur == nil {
+		return
+	}
+	n := 0
+	for _, g := range withHelpers(f, 1) {
+		if g != f {
+			continue
+		}
+		for _, b := range g.Blocks {
+			for _, ins := range b.Instrs {
+				call, ok := ins.(*ssa.Call)
+				if !ok || call.Call.StaticCallee() == nil || call.Call.StaticCallee().String() != "fmt.Sprintf" || len(call.Call.Args) != 2 {
+					continue
+				}
+				fm, ok := constString(call.Call.Args[0])
+				if !ok || !(strings.Contains(fm, "x") || strings.Contains(fm, "X")) {
+					continue
+				}
+				for _, v := range variadicValues(call.Call.Args[1]) {
+					if v == nil {
+						continue
+					}
+					if mi, ok := v.(*ssa.MakeInterface); ok {
+						v = mi.X
+					}
+					n++
+					key := fmt.Sprintf("callgrind-abs#%d", n)
+					if v == ssa.Value(cur) {
+						c.ok("C18-R2", key, p.relFile(call.Pos()), "the absolute form of a callgrind position is the current address", "the hexadecimal operand is the uint64 parameter")
+					} else {
+						c.bad("C18-R2", key, p.relFile(call.Pos()), "callgrindAddress formats "+describeValue(v)+" as the absolute position instead of the current address: whenever the absolute form is chosen (the relative one is not shorter) the cost is attributed to another instruction")
+					}
+				}
+			}
+		}
+	}
+}
